@@ -547,6 +547,10 @@ func genHdrPerm(r *hx.RNG, valid bool) structs.IntentionHTTPHeaderPermission {
 		if valid && (h.Present || h.Regex != "") {
 			h.IgnoreCase = false
 		}
+		if h.IgnoreCase && r.Chance(60) {
+			// make the case-insensitive comparison the only way to match
+			h.Exact, h.Prefix, h.Suffix, h.Contains = strings.ToUpper(h.Exact), strings.ToUpper(h.Prefix), strings.ToUpper(h.Suffix), strings.ToUpper(h.Contains)
+		}
 	}
 	return h
 }
